@@ -34,7 +34,7 @@ def _mk(op, src, bs, cache, td):
     raise ValueError(op)
 
 
-def history(sym, op, n, bs, cache, H, nslots, fail=False):
+def history(sym, op, n, bs, cache, H, nslots, fail=False, prefix=()):
     rows = [list(r) for r in ROWS[:n]]
     with pickle_stub(), private_tempdir() as td, default_tempdir(td):
         # reference result from an independent view (its files are released before the history starts)
@@ -52,7 +52,8 @@ def history(sym, op, n, bs, cache, H, nslots, fail=False):
         used = [False] * nslots
         trace = []
         for step in range(H):
-            act = sym.choice('h%d' % step, 3 * nslots + 1)
+            # the first len(prefix) actions are fixed by the job (case split of the history space)
+            act = prefix[step] if step < len(prefix) else sym.choice('h%d' % step, 3 * nslots + 1)
             if act == 3 * nslots:
                 assume(view is not None)            # no-ops are pruned, not passed
                 trace.append('release-view')
@@ -196,13 +197,52 @@ BOUNDS = {
     'quick': 'histories of H=4 symbolic operations over 2 iterator slots and the view ({advance/create it_i, release it_i, '
              'release the view}); (nrows, buffersize, cache) in {(2,1,T),(2,1,F),(3,2,T),(3,3,T),(2,2,F),(3,None,T)}; source failure '
              'at a symbolic row (H=3); sort, reverse sort, join, distinct, aggregate, complement, mergesort, fromdicts(generator)',
-    'thorough': 'H=6 with 2 slots, H=5 with 3 slots (source failure: H=5); nrows up to 4',
+    'thorough': 'H=6 with 2 slots, H=5 with 3 slots (source failure: H=5); nrows up to 4; deep family for sort(n=2, buffersize=1, cache=True): 3 slots, H=7, case-split by the first three operations',
 }
 OUTSIDE = 'interpreters without reference counting (immediate finalisation is assumed; gc.collect() is called before listing); more than 3 live iterators'
 STUBS = ['PickleStub (keeps real files: creation, re-opening, EOF, unlink are real)', 'private temp dir as tempdir= and tempfile.tempdir',
          'FailingSource']
 ASSUMPTIONS = ['cell values concrete (irrelevant to file lifetime)', 'CPython reference counting']
 RULE = 'Jobs case-split (operator, nrows, buffersize, cache, slots); the history is symbolic: every sequence of H operations is a path.'
+
+
+def valid_prefixes(nslots, length):
+    """Action prefixes that survive the no-op / symmetry pruning rules (abstract replay of the rules; an iterator
+    cannot be exhausted within a prefix this short)."""
+    res = []
+
+    def rec(prefix, view, slots, used):
+        if len(prefix) == length:
+            res.append(list(prefix))
+            return
+        for act in range(3 * nslots + 1):
+            v, sl, us = view, list(slots), list(used)
+            if act == 3 * nslots:
+                if not v:
+                    continue
+                v = False
+            else:
+                i, kind = act % nslots, act // nslots
+                if not (i == 0 or us[i - 1] or us[i]):
+                    continue
+                if kind == 1:
+                    if not sl[i]:
+                        continue
+                    sl[i] = False
+                elif kind == 2:
+                    if sl[i] or not v:
+                        continue
+                    sl[i] = True
+                    us[i] = True
+                else:
+                    if not sl[i]:
+                        if not v:
+                            continue
+                        sl[i] = True
+                        us[i] = True
+            rec(prefix + [act], v, sl, us)
+    rec([], True, [False] * nslots, [False] * nslots)
+    return res
 
 
 def jobs(tier):
@@ -217,6 +257,12 @@ def jobs(tier):
             out.append(dict(name='sort/n=%d/bs=%s/cache=%d/H=%d/slots=%d' % (n, bs, cache, H, ns), func='history',
                             params=dict(op='sort', n=n, bs=bs, cache=cache, H=H, nslots=ns),
                             budget=240 if q else 3000, per_path=20, validate_every=1 if q else 4))
+    if not q:
+        # deep family: 3 slots, 7 operations, split by the first three operations
+        for pre in valid_prefixes(3, 3):
+            out.append(dict(name='deep/sort/n=2/bs=1/cache=1/H=7/slots=3/prefix=%s' % '-'.join(map(str, pre)), func='history',
+                            params=dict(op='sort', n=2, bs=1, cache=True, H=7, nslots=3, prefix=pre),
+                            budget=3000, per_path=20, validate_every=8))
     for op in ('sort-reverse', 'join', 'distinct', 'aggregate', 'complement', 'mergesort'):
         for (n, bs, cache) in ([(3, 1, True), (3, 2, False)] if q else [(3, 1, True), (3, 2, False), (4, 2, True)]):
             for (H, ns) in ([(4, 2)] if q else [(6, 2), (5, 3)]):
